@@ -18,6 +18,8 @@ use std::time::Instant;
 fn property(id: &str) -> Option<Box<dyn Property>> {
     match id {
         "C01" => Some(Box::new(props::c01::C01)),
+        "C02" => Some(Box::new(props::c02::C02)),
+        "C10" => Some(Box::new(props::c10::C10)),
         _ => None,
     }
 }
